@@ -47,7 +47,7 @@ s=s.replace(old,"// VerifNanoTick makes NowNano strictly increasing under the fa
 open(p,"w").write(s)
 PYEOF
 fi
-YIELD=github.com/lindb/lindb/kv,github.com/lindb/lindb/pkg/queue,github.com/lindb/lindb/replica,github.com/lindb/lindb/index,github.com/lindb/lindb/tsdb,github.com/lindb/lindb/query,github.com/lindb/lindb/coordinator/master,github.com/lindb/lindb/coordinator/discovery,github.com/lindb/lindb/internal/concurrent,github.com/lindb/lindb/app/storage/rpc
+YIELD=github.com/lindb/lindb/kv,github.com/lindb/lindb/pkg/queue,github.com/lindb/lindb/replica,github.com/lindb/lindb/index,github.com/lindb/lindb/tsdb,github.com/lindb/lindb/query,github.com/lindb/lindb/coordinator/master,github.com/lindb/lindb/coordinator/discovery,github.com/lindb/lindb/internal/concurrent,github.com/lindb/lindb/app/storage/rpc,github.com/lindb/lindb/aggregation,github.com/lindb/lindb/flow
 CONSTS=github.com/lindb/lindb/pkg/queue.dataPageSize=512,github.com/lindb/lindb/pkg/queue.indexItemsPerPage=8,github.com/lindb/lindb/pkg/bufioutil.defaultWriteBufferSize=4096
 $B/bin/rewrite -dir $REPO -out $B/overlay -const $CONSTS -yield $YIELD \
   ./kv/... ./pkg/... ./replica/... ./index/... ./tsdb/... ./query/... ./coordinator/... ./internal/... ./flow/... ./aggregation/... ./app/storage/rpc/... ./series/... ./models/... ./metrics/... ./rpc/... > $B/rewrite.log 2>&1 || { cat $B/rewrite.log >&2; echo "build: rewrite failed" >&2; exit 2; }
